@@ -227,7 +227,8 @@ class IndependentWrites:
     stores supplies a witness for every enclosing level still unwitnessed by returning a tuple)."""
     always = False
 
-    def __init__(self, witness=None, decompose=None, always=False):
+    def __init__(self, witness=None, decompose=None, always=False, guarded_stores=False):
+        self.guarded_stores = guarded_stores      # allow `if cond(k):` around stores (if-conversion, see symex.st_If)
         self.always = always            # use the schema even when the trip count is concrete (avoids long If-chains)
         self.witness = witness
         self.decompose = decompose      # env -> (n0, n1): the loop runs over range(n0*n1); generic index = k0*n1 + k1
